@@ -133,7 +133,9 @@ fn ev_json(e: &EventSpec) -> Value {
 
 fn cases(thorough: bool) -> Vec<Case> {
     let mut v = vec![];
-    let probs: Vec<(&str, Vec<f64>, f64)> = vec![("decay", vec![], 3.0), ("osc", vec![], 3.0), ("logi", vec![1.5], 3.0), ("lin3", vec![], 2.0), ("vdp", vec![5.0], 3.0), ("switch", vec![], 3.0)];
+    let probs: Vec<(&str, Vec<f64>, f64)> = vec![("decay", vec![], 3.0), ("osc", vec![], 3.0), ("logi", vec![1.5], 3.0), ("lin3", vec![], 2.0), ("vdp", vec![5.0], 3.0), ("switch", vec![], 3.0),
+        // the logistic problem in units of 1e-7 (rate 1.5e7 over [0, 3e-7]): steps far below 1e-6
+        ("logi", vec![1.5e7], 3e-7)];
     for m in M6 {
         for (pid, args, span) in &probs {
             let p = problem(pid, args);
@@ -228,7 +230,7 @@ fn cases(thorough: bool) -> Vec<Case> {
                             e["plain"] = json!(true);
                         }
                     }
-                    v.push(Case { id: format!("case:{}:{}:{}:{}", mname(m), pid, jac, opt), prob: pid.to_string(), args: args.clone(), cfg: c, jac, events, sol_ts, pattern: None });
+                    v.push(Case { id: format!("case:{}:{}{}:{}:{}", mname(m), pid, if *span < 1e-3 { "@1e-7" } else { "" }, jac, opt), prob: pid.to_string(), args: args.clone(), cfg: c, jac, events, sol_ts, pattern: None });
                 }
             }
         }
